@@ -135,3 +135,30 @@ func (p *_RemoveUnusedPass) markFuncReachable_ins(ins ast.Instruction) {
 		}
 	}
 }
+
+// hasIndexRefs reports whether start, a table elem entry or a function export names a function
+// by index (`(export "f" (func 1))`, `(elem (i32.const 0) 0)`, the inline export of an anonymous
+// function). The pass identifies functions by name and does not renumber such references, so
+// removing anything would leave them pointing at the wrong function: the module is kept as it is.
+func (p *_RemoveUnusedPass) hasIndexRefs() bool {
+	byName := func(name string) bool {
+		_, ok := p.funcs[name]
+		return name != "" && ok
+	}
+	if p.m.Start != "" && !byName(p.m.Start) {
+		return true
+	}
+	for _, elem := range p.m.Elem {
+		for _, elemValue := range elem.Values {
+			if !byName(elemValue) {
+				return true
+			}
+		}
+	}
+	for _, exp := range p.m.Exports {
+		if exp.Kind == token.FUNC && !byName(exp.FuncIdx) {
+			return true
+		}
+	}
+	return false
+}
